@@ -391,11 +391,13 @@ func runPrefetchE2E(id string, parts []string) string {
 		return out
 	}
 
-	// ---- inside the last quarter: stored <= w1, so from w1 + 3T/4 + 200 ms on the window test holds
-	fire := w1.Add(T*3/4 + 200*time.Millisecond)
+	// ---- inside the last quarter: stored <= w1, so from w1 + 3T/4 + 150 ms on the window test holds.
+	// The backend (otter) counts whole seconds on a clock that ticks once a second: an entry stored with
+	// lifetime T is dropped between T-1 s and T after the store, so "before the entry could expire" = T - 1 s.
+	fire := w1.Add(T*3/4 + 150*time.Millisecond)
 	inWindow := func(hits []c19Hit) bool { // every hit that was not slow was answered before the entry could expire
 		for _, h := range hits {
-			if h.latency < slowLimit && h.sent.Add(h.latency).Sub(w0) > T-50*time.Millisecond {
+			if h.latency < slowLimit && h.sent.Add(h.latency).Sub(w0) > T-time.Second-50*time.Millisecond {
 				return false
 			}
 		}
